@@ -264,3 +264,70 @@ VARIANTS += [
  dict(name='reply-decode-forwarder-streaming', file=P, expect='flagged(runner/reply-decodes)', find=DEC_OLD, replace=dec_new(), edits=[(P, MAP_HOOK, dec_into(body='err := json.NewDecoder(bytes.NewReader(b)).Decode(v)') + MAP_HOOK)]),
  dict(name='reply-decode-forwarder-fed-stderr', file=P, expect='flagged(runner/)', find=DEC_OLD, replace=dec_new(src='stderr'), edits=[(P, MAP_HOOK, dec_into() + MAP_HOOK)]),
 ]
+
+# ---- third pass, (d): the four "empty <field>" branches of validate as ONE loop over a fixed table of values
+CHAIN_OLD = ('\tif metadata.Name == "" {\n\t\treturn errors.New("empty name")\n\t}\n\tif metadata.Description == "" {\n\t\treturn errors.New("empty description")\n\t}\n'
+             '\tif metadata.Version == "" {\n\t\treturn errors.New("empty version")\n\t}\n\tif metadata.URL == "" {\n\t\treturn errors.New("empty url")\n\t}\n')
+ROWS4 = [('name', 'metadata.Name'), ('description', 'metadata.Description'), ('version', 'metadata.Version'), ('url', 'metadata.URL')]
+LOOP_RANGE = '\tfor _, m := range mandatory {\n\t\tif m.value == "" {\n\t\t\treturn errors.New("empty " + m.field)\n\t\t}\n\t}\n'
+def table(rows=ROWS4, head='[...]struct{ field, value string }', loop=LOOP_RANGE, between=''):
+    return ('\tmandatory := ' + head + '{\n' + ''.join('\t\t{"%s", %s},\n' % r for r in rows) + '\t}\n' + between + loop)
+def tab_variant(name, expect, body, helpers='', why=None):
+    d = dict(name=name, file=P, expect=expect, find=CHAIN_OLD, replace=body)
+    if helpers: d['edits'] = [(P, VAL_HOOK, helpers + VAL_HOOK)]
+    if why: d['why'] = why
+    return d
+LOOP_INDEX = '\tfor i := 0; i < len(mandatory); i++ {\n\t\tif mandatory[i].value == "" {\n\t\t\treturn errors.New("empty " + mandatory[i].field)\n\t\t}\n\t}\n'
+LOOP_CONTINUE = '\tfor _, m := range mandatory {\n\t\tif m.value != "" {\n\t\t\tcontinue\n\t\t}\n\t\treturn errors.New("empty " + m.field)\n\t}\n'
+PARALLEL = ('\tnames := [...]string{"name", "description", "version", "url"}\n\tvalues := [...]string{metadata.Name, metadata.Description, metadata.Version, metadata.URL}\n'
+            '\tfor i, v := range values {\n\t\tif v == "" {\n\t\t\treturn errors.New("empty " + names[i])\n\t\t}\n\t}\n')
+H_CALL = '\tif err := checkMandatory(metadata); err != nil {\n\t\treturn err\n\t}\n'
+def h_table(**kw):
+    return 'func checkMandatory(metadata *plugin.GetMetadataResponse) error {\n' + table(**kw) + '\treturn nil\n}\n\n'
+FIELD_T = 'type mandatoryField struct{ name, value string }\n\n'
+def require_all(test='f.value == ""', fail='return errors.New("empty " + f.name)', rng='fields'):
+    return (FIELD_T + 'func requireAll(fields ...mandatoryField) error {\n\tfor _, f := range ' + rng + ' {\n\t\tif ' + test + ' {\n\t\t\t' + fail + '\n\t\t}\n\t}\n\treturn nil\n}\n\n')
+def v_call(rows=ROWS4):
+    return '\tif err := requireAll(' + ', '.join('mandatoryField{"%s", %s}' % r for r in rows) + '); err != nil {\n\t\treturn err\n\t}\n'
+ALL_SET = 'func allSet(values ...string) bool {\n\tfor _, v := range values {\n\t\tif v == "" {\n\t\t\treturn false\n\t\t}\n\t}\n\treturn true\n}\n\n'
+B_ALL_SET = '\tif !allSet(metadata.Name, metadata.Description, metadata.Version, metadata.URL) {\n\t\treturn errors.New("empty mandatory field")\n\t}\n'
+VARIANTS += [
+ tab_variant('benign-mandatory-table-array-range', 'silent', table(), why='the four branches as one range loop over a local array of {field, value} rows'),
+ tab_variant('benign-mandatory-table-slice-range', 'silent', table(head='[]struct{ field, value string }'), why='... over a slice literal'),
+ tab_variant('benign-mandatory-table-index-loop', 'silent', table(loop=LOOP_INDEX), why='... with a three-clause index loop'),
+ tab_variant('benign-mandatory-table-slice-index-loop', 'silent', table(head='[]struct{ field, value string }', loop=LOOP_INDEX), why='... index loop over a slice literal'),
+ tab_variant('benign-mandatory-table-continue', 'silent', table(loop=LOOP_CONTINUE), why='... the passing rows continue, the failure is the fall-through'),
+ tab_variant('benign-mandatory-parallel-arrays', 'silent', PARALLEL, why='values and reported names in two parallel arrays'),
+ tab_variant('benign-mandatory-table-in-helper', 'silent', H_CALL, h_table(), why='the table loop in a helper whose error validate returns'),
+ tab_variant('benign-mandatory-variadic-helper', 'silent', v_call(), require_all(), why='the rows built by the caller, the loop in a variadic helper'),
+ tab_variant('benign-mandatory-variadic-bool-helper', 'silent', B_ALL_SET, ALL_SET, why='the values handed to a variadic predicate'),
+ # the same shapes with the property broken
+ tab_variant('table-row-missing', 'flagged(metadata/non-empty-url)', table(rows=ROWS4[:3])),
+ tab_variant('table-range-over-prefix', 'flagged(metadata/non-empty-url)', table(head='[]struct{ field, value string }', loop=LOOP_RANGE.replace('range mandatory', 'range mandatory[:3]'))),
+ tab_variant('table-wrong-column-tested', 'flagged(metadata/non-empty-)', table(loop=LOOP_RANGE.replace('m.value == ""', 'm.field == ""'))),
+ tab_variant('table-loop-breaks-early', 'flagged(metadata/non-empty-)', table(loop=LOOP_RANGE.replace('\t\tif m.value', '\t\tif m.field == "version" {\n\t\t\tbreak\n\t\t}\n\t\tif m.value'))),
+ tab_variant('table-loop-returns-success-early', 'flagged(metadata/non-empty-)', table(loop=LOOP_RANGE.replace('\t\tif m.value', '\t\tif m.field == "url" {\n\t\t\treturn nil\n\t\t}\n\t\tif m.value'))),
+ tab_variant('table-loop-does-not-fail', 'flagged(metadata/non-empty-)', table(loop=LOOP_RANGE.replace('return errors.New("empty " + m.field)', 'continue'))),
+ tab_variant('table-row-skipped-by-continue', 'flagged(metadata/non-empty-)', table(loop=LOOP_RANGE.replace('\t\tif m.value', '\t\tif m.field == "description" {\n\t\t\tcontinue\n\t\t}\n\t\tif m.value'))),
+ tab_variant('table-cell-overwritten', 'flagged(metadata/non-empty-)', table(between='\tif len(metadata.Capabilities) > 1 {\n\t\tmandatory[3].value = "n/a"\n\t}\n')),
+ tab_variant('table-index-loop-starts-at-one', 'flagged(metadata/non-empty-)', table(loop=LOOP_INDEX.replace('i := 0', 'i := 1'))),
+ tab_variant('table-index-loop-bound-short', 'flagged(metadata/non-empty-)', table(loop=LOOP_INDEX.replace('i < len(mandatory)', 'i < len(mandatory)-1'))),
+ tab_variant('table-index-loop-step-two', 'flagged(metadata/non-empty-)', table(loop=LOOP_INDEX.replace('i++', 'i += 2'))),
+ tab_variant('table-index-loop-other-row', 'flagged(metadata/non-empty-)', table(loop=LOOP_INDEX.replace('mandatory[i].value == ""', 'mandatory[i/2].value == ""'))),
+ tab_variant('table-values-stale', 'flagged(metadata/non-empty-)', table(between='\tmetadata.URL = strings.TrimSpace(metadata.URL)\n')),
+ tab_variant('table-helper-result-ignored', 'flagged(metadata/non-empty-)', '\tif err := checkMandatory(metadata); err != nil && len(metadata.Capabilities) == 0 {\n\t\treturn err\n\t}\n', h_table()),
+ tab_variant('variadic-helper-row-missing', 'flagged(metadata/non-empty-version)', v_call(rows=[ROWS4[0], ROWS4[1], ROWS4[3]]), require_all()),
+ tab_variant('variadic-helper-accepts-any-set', 'flagged(metadata/non-empty-)', v_call(), require_all(test='f.value != ""', fail='return nil')),
+ tab_variant('variadic-helper-skips-first', 'flagged(metadata/non-empty-)', v_call(), require_all(rng='fields[1:]')),
+ tab_variant('variadic-bool-helper-negated', 'flagged(metadata/non-empty-)', B_ALL_SET.replace('!allSet', 'allSet'), ALL_SET),
+ tab_variant('variadic-bool-helper-value-missing', 'flagged(metadata/non-empty-description)', B_ALL_SET.replace('metadata.Description, ', ''), ALL_SET),
+]
+LOOP_RANGE_IDX = '\tfor i := range mandatory {\n\t\tif mandatory[i].value == "" {\n\t\t\treturn errors.New("empty " + mandatory[i].field)\n\t\t}\n\t}\n'
+LOOP_ERR_LOCAL = '\tvar missing error\n\tfor _, m := range mandatory {\n\t\tif m.value == "" {\n\t\t\tmissing = errors.New("empty " + m.field)\n\t\t\tbreak\n\t\t}\n\t}\n\tif missing != nil {\n\t\treturn missing\n\t}\n'
+VARIANTS += [
+ tab_variant('benign-mandatory-table-range-by-index', 'silent', table(loop=LOOP_RANGE_IDX), why='range over the indices, the rows read in place'),
+ tab_variant('benign-mandatory-table-rendered', 'silent', table(between='\t_ = fmt.Sprintf("%v", metadata)\n'), why='the object is rendered by a formatting call after the table was built'),
+ tab_variant('benign-mandatory-table-error-local', 'silent', table(loop=LOOP_ERR_LOCAL), why='the loop records the first failure in an error local and breaks; the local is returned after the loop'),
+ tab_variant('table-error-local-not-returned', 'flagged(metadata/non-empty-)', table(loop=LOOP_ERR_LOCAL.replace('\tif missing != nil {\n\t\treturn missing\n\t}\n', '\tif missing != nil && len(metadata.Capabilities) == 0 {\n\t\treturn missing\n\t}\n'))),
+ tab_variant('table-object-rewritten-by-call', 'flagged(metadata/non-empty-)', table(between='\t_ = json.Unmarshal([]byte(metadata.Description), metadata)\n')),
+]
